@@ -126,6 +126,14 @@ impl DSpec {
                 p.push(Color::new(1, 2, 3));
                 p
             }
+            4 => {
+                // equal neighbours: a colour set far behind the end pads the gap with equal entries
+                let mut p = Palette::dos_default();
+                p.set_color(20, Color::new(9, 9, 9));
+                p.push(Color::new(9, 9, 9));
+                p.push(Color::new(9, 9, 9));
+                p
+            }
             _ => {
                 let mut p = Palette::dos_default();
                 for i in 0..284u32 {
@@ -136,6 +144,15 @@ impl DSpec {
         };
         match self.fonts {
             0 => {}
+            3 => {
+                // the default font edited in place (its cached checksum is stale)
+                let mut f = BitFont::default();
+                if let Some(g) = f.get_glyph_mut('A') {
+                    g.data[3] ^= 0x5A;
+                    g.data[7] = 0xFF;
+                }
+                b.set_font(0, f);
+            }
             1 => b.set_font(1, synth_font("one", 16, 3)),
             _ => {
                 b.set_font(255, synth_font("two five five", 16, 5));
@@ -165,7 +182,7 @@ impl DSpec {
     }
     fn json(&self) -> Value {
         json!({"size": [self.w, self.h], "buffer_type": self.buffer_type, "ice_mode": self.ice, "palette_mode": self.palette_mode, "font_mode": self.font_mode,
-               "palette": (["default 16", "1 colour", "17 colours", "300 colours"][self.palette as usize]), "fonts": (["{0}", "{0,1}", "{0,255,300}"][self.fonts as usize]),
+               "palette": (["default 16", "1 colour", "17 colours", "300 colours", "23 colours with equal neighbours"][self.palette as usize]), "fonts": (["{0}", "{0,1}", "{0,255,300}", "{0: default font edited in place}"][self.fonts as usize]),
                "sauce": (["none", "plain", "with comments"][self.sauce as usize]), "layers": self.layers.iter().map(|l| l.json()).collect::<Vec<_>>()})
     }
 }
@@ -350,8 +367,8 @@ fn dims() -> Vec<Dim> {
         Dim { name: "ice mode", n: 3, apply: |d, v| d.ice = v as u8 },
         Dim { name: "palette mode", n: 4, apply: |d, v| d.palette_mode = v as u8 },
         Dim { name: "font mode", n: 4, apply: |d, v| d.font_mode = v as u8 },
-        Dim { name: "palette", n: 4, apply: |d, v| d.palette = v as u8 },
-        Dim { name: "fonts", n: 3, apply: |d, v| d.fonts = v as u8 },
+        Dim { name: "palette", n: 5, apply: |d, v| d.palette = v as u8 },
+        Dim { name: "fonts", n: 4, apply: |d, v| d.fonts = v as u8 },
         Dim { name: "sauce", n: 3, apply: |d, v| d.sauce = v as u8 },
         Dim { name: "buffer size", n: 6, apply: |d, v| {
             let (w, h) = [(4, 3), (1, 1), (0, 0), (80, 25), (200, 120), (3, 200)][v];
@@ -420,15 +437,17 @@ fn c10_chunk_cases() -> Vec<(String, Vec<icy::Chunk>)> {
     for k in 8..32 {
         vals.extend([(1u32 << k) - 1, 1u32 << k, (1u32 << k) + 1]);
     }
-    for ch in vals {
+    for (ch, bt) in vals.iter().flat_map(|v| (0..5u16).map(move |t| (*v, t))) {
+        // the header (which comes first) declares the buffer type: every type
+        let hdr = ("ICED".to_string(), icy::iced_header_typed(4, 2, bt));
         // first chunk
         let mut cells = icy::long_cell(0, ch, 7, 0, 0);
         cells.extend(icy::short_cell(0, b'z', 7, 0, 0));
         let l = icy::LayerRec { w: 2, h: 2, data: cells.clone(), ..Default::default() };
-        v.push((format!("long cell char 0x{ch:X} in first chunk"), vec![hdr.clone(), ("LAYER_0".into(), l.bytes()), end.clone()]));
+        v.push((format!("long cell char 0x{ch:X} in first chunk, buffer type {bt}"), vec![hdr.clone(), ("LAYER_0".into(), l.bytes()), end.clone()]));
         // continuation chunk
         let first = icy::LayerRec { w: 2, h: 2, data: { let mut d = icy::short_cell(0, b'a', 7, 0, 0); d.extend(icy::short_cell(0, b'b', 7, 0, 0)); d }, ..Default::default() };
-        v.push((format!("long cell char 0x{ch:X} in continuation chunk"), vec![hdr.clone(), ("LAYER_0".into(), first.bytes()), ("LAYER_0~1".into(), cells), end.clone()]));
+        v.push((format!("long cell char 0x{ch:X} in continuation chunk, buffer type {bt}"), vec![hdr.clone(), ("LAYER_0".into(), first.bytes()), ("LAYER_0~1".into(), cells), end.clone()]));
     }
     // strings: every 1 and 2 byte string as layer title and as font name
     for a in 0..=255u16 {
